@@ -22,7 +22,7 @@ OUTSIDE = ['non-differentiable points (kinks): excluded by path conditions', 'th
            'operators other than small explicit matrices', 'the finite-h rate of a central difference (the exact '
            'derivative is decided instead)']
 ASSUMPTIONS = ['calculus rules of the primitives sqrt/exp/log/pow on dual numbers (trusted base of the AD)']
-SETTINGS = {'max_paths': 200, 'tol': (1e-9, 2), 'obligation_timeout_ms': 20000, 'conc_rtol': 2e-4}
+SETTINGS = {'strict_definedness': False, 'max_paths': 200, 'tol': (1e-9, 2), 'obligation_timeout_ms': 20000, 'conc_rtol': 2e-4}
 CFG_TIMEOUT = {'quick': 240, 'thorough': 900}
 
 
@@ -32,6 +32,8 @@ def configs(tier, seed):
         out.append(('grad/' + cid, dict(kind='grad', recipe=rn, sk=sk)))
         if tier == 'thorough' and sk in ('rn', 'arn', 'discr') and funcs.supports_dim(rn, sk, 3):
             out.append(('grad/%s/n=3' % cid, dict(kind='grad', recipe=rn, sk=sk, n=3)))
+        if funcs.fby_name(rn).value is not None:
+            out.append(('value/' + cid, dict(kind='value', recipe=rn, sk=sk)))
         if not (funcs.fby_name(rn).kind == 'sqrt' and 'pspace' in sk):
             out.append(('lipschitz/' + cid, dict(kind='lip', recipe=rn, sk=sk, _settings={'max_paths': 2500})))
     out.append(('registry/functionals-complete', dict(kind='registry')))
@@ -74,6 +76,20 @@ def case(ctx, kind, recipe=None, sk=None, n=None):
         ctx.fact('every-functional-class-has-a-recipe-or-a-reason', not missing, 'unregistered: %s' % missing)
         return
     r, f = funcs.build(ctx, recipe, sk, n=n)
+    if kind == 'value':
+        # the functional takes the documented value (derived functionals: the formula of the derivation applied to
+        # the base functionals' defining sums in the space's own inner product)
+        x = ctx.element(f.domain, 'x')
+        if r.pre is not None:
+            r.pre(ctx, x)
+        px = ctx.snapshot(x)
+        exp = r.value(ctx, f.domain, x)
+        if exp is None:
+            ctx.fact('no-value-oracle-on-this-space', True)
+            return
+        ctx.eq('value=documented-formula', f(x), exp + (1 if ctx.canary else 0))
+        ctx.eq('x-unchanged', x, px)
+        return
     try:
         grad = f.gradient
     except NotImplementedError:
